@@ -43,3 +43,13 @@ func verifRoundTripAllocation(w0 io.Writer, r0 io.Reader, x Allocation) (y Alloc
 	decErr = y.Decode(r0)
 	return y, nil, decErr
 }
+
+func verifRoundTripState(w0 io.Writer, r0 io.Reader, x State) (y State, encErr, decErr error) {
+	encErr = x.Encode(w0)
+	if encErr != nil {
+		return y, encErr, nil
+	}
+	verifLink(w0, r0)
+	decErr = y.Decode(r0)
+	return y, nil, decErr
+}
